@@ -303,6 +303,21 @@ def run(ctx):
             ctx.ob('R05.11', f'overwrite|{fld} merged from both sources', {1, 2} <= src, f'{fld} of the merged options depends on the command-line options (self) and on the directive options (other)', ob_.loc(bi_, s_))
     ctx.floor('R05.11', n11, 4, 'placement-relevant fields of the merged submit options')
 
+    # ---- R05.12 what "free" means
+    ctx.rule('R05.12', 'Worker::is_free (the gate for multi-node placement and for the idle stop) looks into every task container of the single-node assignment: assigned_tasks AND prefilled_tasks (set_mn_task replaces the whole assignment; a pre-sent task the worker later starts on its own would find no bookkeeping)')
+    isf = prog.body(WORKER + 'is_free')
+    SNA = T + 'server::worker::SingleNodeTaskAssignment'
+    sna = prog.adt(SNA)
+    flds = sna.get('fields') or sna['variants'][0]['fields']
+    holders12 = [(f['name'] if isinstance(f, dict) else f[0]) for f in flds if 'TaskId' in (f['ty'] if isinstance(f, dict) else f[1]) and 'Set<' in (f['ty'] if isinstance(f, dict) else f[1]).replace('HashSet<', 'Set<')]
+    ctx.floor('R05.12', len(holders12), 2, 'task sets of SnAssignment')
+    from hqrules.templates import field_read_sites
+    for f in holders12:
+        rd = any(b_.path in prog.with_closures(isf.path) for o_, b_, bi_, st_ in field_read_sites(prog, SNA, f))
+        ctx.ob('R05.12', f'is_free|reads {f}', rd, f'is_free inspects SnAssignment.{f}', isf.loc())
+    smn12 = prog.body(WORKER + 'set_mn_task')
+    ctx.ob('R05.12', 'set_mn_task|guarded by is_free', bool(smn12.call_blocks(WORKER + 'is_free')), 'set_mn_task asserts is_free() before it replaces the assignment', smn12.loc())
+
     # ---- R05.5 reactor rows + mapping rows
     n = reactor_table.run_rows(ctx, 'R05.5', 'C05')
     ctx.floor('R05.5', n, 20, 'reactor rows for C05')
